@@ -1,9 +1,9 @@
 package mon
 
 import (
-	"strings"
 	"fmt"
 	"math/big"
+	"strings"
 
 	sdk "github.com/cosmos/cosmos-sdk/types"
 
@@ -117,7 +117,11 @@ func (m *C06) OnStep(_ explore.Ghost, st *explore.Step) []V {
 			m.inc("denom_changes")
 		}
 	}
-	return append(out, m.asRequested(st, ids)...)
+	for _, d := range ordersAsRequested(st, ids) {
+		out = append(out, V{Kind: "C06/stored-order-differs-from-request/" + actType(st.Act), Detail: d})
+	}
+	m.inc("orders_compared_with_request")
+	return out
 }
 
 // wantOrder is what an order must look like according to the messages that wrote it.
@@ -129,12 +133,12 @@ type wantOrder struct {
 // asRequested: a created or updated order carries exactly the requested seller, batch, quantity, ask
 // amount, ask denomination (through its market, which must be the market of the batch's credit type) and
 // auto-retire flag. Every other clause reads these fields back from state, so they must be the request's.
-func (m *C06) asRequested(st *explore.Step, ids []uint64) []V {
+func ordersAsRequested(st *explore.Step, ids []uint64) []string {
 	want := map[uint64]*wantOrder{}
 	switch msg := st.Res.Msg.(type) {
 	case *markettypes.MsgSell:
 		if len(ids) != len(msg.Orders) {
-			return []V{{Kind: "C06/sell-response-id-count", Detail: fmt.Sprintf("%s: %d orders, %d ids", st.Act.Label, len(msg.Orders), len(ids))}}
+			return []string{fmt.Sprintf("%s: %d orders, %d ids in the response", st.Act.Label, len(msg.Orders), len(ids))}
 		}
 		for i, o := range msg.Orders {
 			if o.AskPrice == nil {
@@ -165,11 +169,11 @@ func (m *C06) asRequested(st *explore.Step, ids []uint64) []V {
 			}
 		}
 	}
-	var out []V
+	var out []string
 	for id, w := range want {
 		o := st.Post.Order(id)
 		if o == nil {
-			continue // reported above
+			continue // reported elsewhere
 		}
 		var diffs []string
 		if addrStr(o.Seller) != w.seller {
@@ -199,10 +203,8 @@ func (m *C06) asRequested(st *explore.Step, ids []uint64) []V {
 				}
 			}
 		}
-		m.inc("orders_compared_with_request")
 		if len(diffs) > 0 {
-			out = append(out, V{Kind: "C06/stored-order-differs-from-request/" + actType(st.Act),
-				Detail: fmt.Sprintf("order %d after %s: %s", id, st.Act.Label, strings.Join(diffs, "; "))})
+			out = append(out, fmt.Sprintf("order %d after %s: %s", id, st.Act.Label, strings.Join(diffs, "; ")))
 		}
 	}
 	return out
